@@ -13,24 +13,37 @@ def quiet():
 
 
 def run_histories(spec, acc, configs, prof, monitors, n_hist, jobs,
-                  openers=None, soft_cap_s=None):
+                  openers=None, soft_cap_s=None, directed=None):
     """n_hist histories of about `jobs` jobs each.  `configs` are World
     keyword dicts, spread over shards round-robin.  `openers` is an optional
     list of functions (gen) -> None run before the random walk (directed
-    prefixes), chosen round-robin too (None entries = no opener)."""
+    prefixes), chosen at random (None entries = no opener).  `directed` is
+    an optional list of (config, opener) pairs that are ALL run (spread over
+    the shards) before the sampled histories: openers that need a particular
+    mode to reach the state they are written for."""
     quiet()
     shard, nshards = spec['shard'], spec['nshards']
     master = random.Random('%s-%s-%s' % (spec['seed'], shard, spec['tier']))
     t0 = time.time()
-    for i in range(n_hist):
+    mine = [d for j, d in enumerate(directed or []) if j % nshards == shard]
+    for i in range(-len(mine), n_hist):
         if soft_cap_s and time.time() - t0 > soft_cap_s:
             acc.notes.append('shard %d stopped after %d/%d histories (soft '
                              'time cap %ds)' % (shard, i, n_hist, soft_cap_s))
             acc.count('histories_skipped_by_time_cap', n_hist - i)
             break
         k = shard + i * nshards
-        cfg = dict(configs[k % len(configs)])
+        forced = mine[i + len(mine)] if i < 0 else None
+        cfg = dict(forced[0] if forced else configs[k % len(configs)])
         hseed = master.getrandbits(32)
+        # integration pull requests (the default of a real deployment) in
+        # about half of the sampled histories that do not say otherwise
+        st = dict(cfg.get('settings') or {})
+        if not forced and 'always_create_integration_pull_requests' not in st \
+                and hseed % 5 < 2:
+            st['always_create_integration_pull_requests'] = True
+            cfg['settings'] = st
+            acc.count('histories_with_integration_pull_requests')
         world = None
         try:
             world = World(seed=hseed, **cfg)
@@ -47,7 +60,10 @@ def run_histories(spec, acc, configs, prof, monitors, n_hist, jobs,
                 for m in monitors:
                     m(world, rec, acc, ctx)
             g = Gen(world, random.Random(hseed), prof, on_job)
-            if openers:
+            if forced:
+                forced[1](g)
+                acc.count('directed_histories')
+            elif openers:
                 op = openers[master.randrange(len(openers))]
                 if op:
                     op(g)
